@@ -476,9 +476,9 @@ class Intervals:
                 return l
             if df["kind"] == "assign" and df["rv"]["k"] in ("use", "ref"):
                 q = flow.op_place(df["rv"]["ops"][0])
-                if q is None:
-                    return l
-                l, pr = q["l"], flow.norm_proj(q["proj"])
+                if q is None or flow.norm_proj(q["proj"]):
+                    return l        # defined from a projection (payload of an Option, a field): this local is the root
+                l, pr = q["l"], ()
                 continue
             return l
         return None
